@@ -50,7 +50,38 @@ Definition show_err (e : lerr) : string :=
   | HeaderInvalid => "HeaderNameContainsInvalidCharacters"
   end.
 
+(* P:<hex source literal>:<hex printed literal> - both are lexed; the printed one must be the same token (kind and value) *)
+(* the text is exactly one numeric literal *)
+Definition first_token (s : string) : option tok :=
+  match lex s with
+  | SOk [(t, _, _); (TEndline, _, _)] =>
+      match t with TInt _ _ | TFloat _ _ | TInf _ => Some t | _ => None end
+  | _ => None
+  end.
+
+Definition same_value (a b : tok) : bool :=
+  match a, b with
+  | TInt _ x, TInt _ y => N.eqb x y      (* the printer may drop or change the suffix spelling; the typed kind is C09's subject *)
+  | _, _ => String.eqb (show_tok a) (show_tok b)
+  end.
+
+Definition run_print (rest : string) : string :=
+  match split ":" rest with
+  | [a; b] =>
+      match unhex a, unhex b with
+      | Some sa, Some sb =>
+          match first_token sa, first_token sb with
+          | Some ta, Some tb => if same_value ta tb then "PRINT " ++ b else "VALUE-CHANGED " ++ show_tok ta ++ " -> " ++ show_tok tb
+          | Some ta, None => "VALUE-CHANGED " ++ show_tok ta ++ " -> unreadable"
+          | None, _ => "NOT-A-LITERAL"
+          end
+      | _, _ => "PARSE-ERROR"
+      end
+  | _ => "PARSE-ERROR"
+  end.
+
 Definition run_top (line : string) : string :=
+  if String.prefix "P:" line then run_print (substring 2 (String.length line - 2) line) else
   match unhex line with
   | None => "PARSE-ERROR"
   | Some s =>
